@@ -94,7 +94,7 @@ def sh(cmd, cwd=None, env=None, timeout=None, inp=None):
 FORBIDDEN = re.compile(
     r"\b(Admitted|admit|Axiom|Axioms|Parameter|Parameters|Conjecture|Conjectures|"
     r"Unset\s+Guard|bypass_check|Admit\s+Obligations|Unset\s+Positivity|"
-    r"Unset\s+Universe\s+Checking|native_compute)\b|type-in-type|impredicative-set")
+    r"Unset\s+Universe\s+Checking|native_compute|exact_no_check|vm_cast_no_check|native_cast_no_check|Abort)\b|type-in-type|impredicative-set")
 
 
 def _strip_comments(src):
